@@ -9,7 +9,7 @@ import sqlite3
 import tempfile
 import time
 
-from .core import DEFAULT_SETTINGS, ENOVAL, Cache, Disk, Timeout
+from .core import DBNAME, DEFAULT_SETTINGS, ENOVAL, Cache, Disk, Timeout
 from .persistent import Deque, Index
 
 
@@ -35,20 +35,31 @@ class FanoutCache:
         directory = op.expandvars(directory)
 
         default_size_limit = DEFAULT_SETTINGS['size_limit']
-        size_limit = settings.pop('size_limit', default_size_limit) / shards
+
+        if 'size_limit' in settings:
+            settings['size_limit'] = settings['size_limit'] / shards
+
+        def shard_settings(shard_directory):
+            # Keep the size limit stored in an existing shard unless a new one
+            # is given; new shards get their part of the default size limit.
+            exists = op.exists(op.join(shard_directory, DBNAME))
+            if 'size_limit' in settings or exists:
+                return settings
+            return dict(settings, size_limit=default_size_limit / shards)
 
         self._count = shards
         self._directory = directory
         self._disk = disk
         self._shards = tuple(
             Cache(
-                directory=op.join(directory, '%03d' % num),
+                directory=shard_directory,
                 timeout=timeout,
                 disk=disk,
-                size_limit=size_limit,
-                **settings,
+                **shard_settings(shard_directory),
             )
-            for num in range(shards)
+            for shard_directory in (
+                op.join(directory, '%03d' % num) for num in range(shards)
+            )
         )
         self._hash = self._shards[0].disk.hash
         self._caches = {}
